@@ -237,7 +237,7 @@ func caseScript(h *H, r *hlib.Rng, variant string) {
 			h.fail("coinbase-commit-position", "seal hash extracted although the height push is malformed")
 		} else {
 			off := 1 + int(ss[0])
-			want := append(append([]byte{44, 0xfa, 0xbe, 0x6d, 0x6d}, sh[:]...))
+			want := append([]byte{44, 0xfa, 0xbe, 0x6d, 0x6d}, sh[:]...)
 			if off+len(want)+8 > len(ss) || !bytes.Equal(ss[off:off+len(want)], want) {
 				h.fail("coinbase-commit-position", "extracted seal hash is not the 32 bytes after OP_PUSH44|fabe6d6d following the height push")
 			}
